@@ -1,5 +1,5 @@
 INFO = {
     "level": "proof",
-    "level_text": "placeholder",
-    "level_note": "placeholder",
+    "level_text": "Membership.grant_access_to_membership is proved equal to the specification `public or a fleet in common`; every enter of the eight interacting activities has the postcondition `success implies the target's membership grants access to the vehicle's` (including the DispatchStation->ChargingStation shortcut), for all states and memberships.",
+    "level_note": "the built-in dispatchers' pairing filters (Dispatcher._is_valid_for_dispatch/_valid_request) are nested closures over numpy/scipy code and are not under contract yet; known issue F13 (fleet-less vehicle treated as public by grant_access_to_membership_id) is recorded in DESIGN 7.",
 }
